@@ -16,6 +16,19 @@ CHECKS["C05"] = dict(
    note="Trusted: virtual Queue/Event/Lock (conformance self-test), the recording service client; update size measured as the SDK measures it. Deviation budgets per config are in the evidence.",
    technique="stateless model checking of the implementation (deviation-bounded DFS over thread and timer choices, virtual time)",
    design="6/C05")
+SIM_NOTE = ("Trusted: the backend reference model (vcheck/sim/backend.py, wire forms built independently of the SDK codecs), "
+            "the virtual primitives (self-test), operation positions recovered from harness-assigned operation names. "
+            "Bounds (program sizes, crash/pagination/scheduling deviation budgets) are listed in the evidence.")
+SIM_TECH = "stateless model checking of the implementation: exhaustive enumeration of crash points, pagination modes, delivery orders and scheduling deviations over a bounded program corpus, against a backend reference model"
+CHECKS["C01"] = dict(
+   text="Every execution of a bounded corpus of workflow programs (all <=2-unit sequences over 14 operation kinds, <=3 over a reduced set, nested shapes) is explored through the production entry point against a stateful backend model, with every single crash point, every pagination mode of each re-invocation, three scheduler policies and +1 scheduling deviation on concurrent shapes; oracle: no user function is entered while the backend holds a terminal record for its operation (except ReplayChildren contexts), and calls at completed positions deliver the recorded outcome.",
+   note=SIM_NOTE, technique=SIM_TECH, design="6/C01", engine="vsched+durable-sim")
+CHECKS["C02"] = dict(
+   text="Same exploration space as C01; differential oracle with no hand-written expectations: every delivery at a program position equals (typed rendering, exception class+message) the first completed delivery there, and the final outcome of every interrupted run equals that of the uninterrupted run of the same program.",
+   note=SIM_NOTE, technique=SIM_TECH, design="6/C02", engine="vsched+durable-sim")
+CHECKS["C11"] = dict(
+   text="Lifecycle monitor over the concatenated update stream of all invocations of every explored execution (C01 space): at most one START per attempt, START before RETRY/SUCCEED/FAIL, nothing after a terminal record or for an operation already held terminal, parent context START before a child's first update, EXECUTION record at most once and last.",
+   note=SIM_NOTE, technique=SIM_TECH, design="6/C11", engine="vsched+durable-sim")
 NOT_YET = {}
 
 def main():
@@ -47,6 +60,7 @@ def main():
                   "source_commits": [], "add_only": True},
         "engines": [
             {"name": "vsched", "path": "/verif/vcheck/vsched", "serves_properties": sorted(CHECKS), "kind_free_text": "controlled scheduler + virtual time for the real SDK threads; deviation-bounded exhaustive DFS"},
+            {"name": "durable-sim", "path": "/verif/vcheck/sim", "serves_properties": sorted(k for k, v in CHECKS.items() if "sim" in v.get("engine", "")), "kind_free_text": "backend reference model behind the boto3 seam + multi-invocation driver with crash/fault/pagination/delivery choices + workflow DSL"},
         ],
         "checks": checks,
         "not_applicable": na,
